@@ -1104,8 +1104,16 @@ func serverCase(k *engine.Case) {
 	for w := time.Now().Add(20 * time.Second); (h.mgr.ConnCount() != 0 || h.live.Load() != 0) && time.Now().Before(w); {
 		time.Sleep(2 * time.Millisecond)
 	}
-	if h.mgr.ConnCount() != 0 || h.live.Load() != 0 {
+	if h.live.Load() != 0 {
 		k.Inconclusive("the bring-up probe's session had not ended within the real-time guard")
+		srv.Close()
+		return
+	}
+	if c := h.mgr.ConnCount(); c != 0 {
+		// the probe's session is over as far as its handler can tell (exit callback / echo handler
+		// returned 20 s ago) and nothing else was ever connected
+		k.Nontrivial()
+		k.Fail("count-not-restored", "WithMaxConn(%d): one connection was served and has ended (its handler has returned), 20 s later ConnCount() is %d, not back at 0 (echo manager: %v)", m, c, echo)
 		srv.Close()
 		return
 	}
